@@ -14,7 +14,8 @@ theorem ApiGood.toGood {s : Vm} {r : Res} (h : ApiGood s r) : Good s r := by
   | thrown => simpa using h2.toExt true
   | fatal => simpa using h2.toExt false
   | stuck => exact absurd hr h1.1
-  | exit e => exact absurd hr (h1.2 e)
+  | exit e => exact absurd hr (h1.2.1 e)
+  | yielded => exact absurd hr h1.2.2
 
 theorem popCtx_snoc (s : Vm) (l : List Ctx) (c : Ctx) (h : s.callStack = l ++ [c]) :
     popCtx s = { restoreCtx c s with callStack := l } := by
@@ -129,6 +130,17 @@ theorem post_spec (k : FrameKind) (ret : Beh) (s s1 s2 : Vm) (h : k.pre ret s = 
     · simpa [FrameKind.post, Vm.regs] using hr
     · have := hs.privEnv; simp only [FrameKind.post] at this ⊢; simp [this]
 
+theorem pre_cs (k : FrameKind) (ret : Beh) (s s1 : Vm) (h : k.pre ret s = some s1)
+    (hk : (∀ n f, k ≠ .call n f) ∧ ∀ n, k ≠ .native n) : s1.callStack = s.callStack := by
+  cases k with
+  | call n f => exact absurd rfl (hk.1 n f)
+  | native n => exact absurd rfl (hk.2 n)
+  | tmp n => simp only [FrameKind.pre, Option.some.injEq] at h; subst h; rfl
+  | forOf c => simp only [FrameKind.pre, Option.some.injEq] at h; subst h; rfl
+  | ref => simp only [FrameKind.pre, Option.some.injEq] at h; subst h; rfl
+  | block => simp only [FrameKind.pre, Option.some.injEq] at h; subst h; rfl
+  | priv => simp only [FrameKind.pre, Option.some.injEq] at h; subst h; rfl
+
 /-- a bracketing frame operation around a sub-behaviour obeys the discipline -/
 theorem frame_good {runF : RunF} (HG : HypG runF) (lf : Nat) (k : FrameKind) (ret body : Beh) (s : Vm)
     (hI : Inv s) : Good s (step lf runF (.frame k ret body) s) := by
@@ -154,6 +166,22 @@ theorem frame_good {runF : RunF} (HG : HypG runF) (lf : Nat) (k : FrameKind) (re
       simp only [GoodCtl] at hc
       exact ⟨by simpa [GoodCtl] using hext.weaken.trans hc, by simp [Quiet]⟩
     | stuck => simp [GoodCtl] at hc
+    | yielded =>
+      simp only [GoodCtl] at hc
+      have hq2 : s2.interrupted = s.interrupted := (hqq (by simp)).trans hq
+      have hfat : Good s (Outcome.fatal, s2) := ⟨by simpa [GoodCtl] using hext.weaken.trans hc.1, by simp [Quiet]⟩
+      have hy : s1.callStack = s.callStack → Good s (Outcome.yielded, ({ s2 with resid := .frame k ret s2.resid } : Vm)) := by
+        intro hcs
+        have he := hext.weaken.trans hc.1
+        exact ⟨by simp only [GoodCtl]; exact ⟨⟨he.cs, he.is, he.rs, he.ts⟩, hc.2.trans hcs⟩, fun _ => hq2⟩
+      cases k with
+      | call n f => exact hfat
+      | native n => exact hfat
+      | tmp n => exact hy (pre_cs _ ret s s1 hp ⟨by simp, by simp⟩)
+      | forOf c => exact hy (pre_cs _ ret s s1 hp ⟨by simp, by simp⟩)
+      | ref => exact hy (pre_cs _ ret s s1 hp ⟨by simp, by simp⟩)
+      | block => exact hy (pre_cs _ ret s s1 hp ⟨by simp, by simp⟩)
+      | priv => exact hy (pre_cs _ ret s s1 hp ⟨by simp, by simp⟩)
     | exit e =>
       simp only [GoodCtl] at hc
       obtain ⟨hsame, hpq⟩ := post_spec k ret s s1 s2 hp hc
@@ -205,6 +233,9 @@ theorem frame_good {runF : RunF} (HG : HypG runF) (lf : Nat) (k : FrameKind) (re
             simp only [GoodCtl] at hc3
             exact ⟨by simpa [GoodCtl] using hsame.ext_left hc3, by simp [Quiet]⟩
           | stuck => simp [GoodCtl] at hc3
+          | yielded =>
+            simp only [GoodCtl] at hc3
+            exact ⟨by simp only [GoodCtl]; exact ⟨hsame.ext_left hc3.1, hc3.2.trans hsame.cs⟩, fun _ => hq4 (by simp)⟩
 
 /-- the native probe (a native call that may overflow, throw a catchable payload, or raise Interrupt) -/
 theorem probe_good (id : Nat) (s : Vm) : Good s (probe id s) := by
@@ -240,14 +271,19 @@ theorem mkSame {s t : Vm}
   ⟨h.1, h.2.1, h.2.2.1, h.2.2.2.1, h.2.2.2.2.1, h.2.2.2.2.2.1, h.2.2.2.2.2.2.1, h.2.2.2.2.2.2.2⟩
 
 /-- the deferred recover of a boundary never answers with a local exit -/
-theorem unwind_no_exit (runF : RunF) (o : Outcome) (s : Vm) : ∀ e, (unwindAtMarker runF o s).1 ≠ .exit e := by
-  intro e
+theorem unwind_no_exit (runF : RunF) (o : Outcome) (s : Vm) :
+    (∀ e, (unwindAtMarker runF o s).1 ≠ .exit e) ∧ (unwindAtMarker runF o s).1 ≠ .yielded := by
   unfold unwindAtMarker
   simp only
-  split
-  · split <;> simp
-  · simp
-  · simp
+  refine ⟨fun e => ?_, ?_⟩
+  · split
+    · split <;> simp
+    · simp
+    · simp
+  · split
+    · split <;> simp
+    · simp
+    · simp
 
 /-- **vm.try is balanced** (vm.go `try`): for every behaviour of the callback and every ending. -/
 theorem tryB_spec {runF : RunF} (HG : HypG runF) (HA : HypA runF) (b : Beh) (s : Vm) (hI : Inv s) :
@@ -258,23 +294,24 @@ theorem tryB_spec {runF : RunF} (HG : HypG runF) (HA : HypA runF) (b : Beh) (s :
   obtain ⟨o, s1⟩ := r
   obtain ⟨hc, hq⟩ := hg
   have hpq : (pushTryFrame tryPanicMarker (-1) s).interrupted = s.interrupted := rfl
-  have key : ∀ (c : Bool), (o = .thrown → c = true) → o ≠ .normal → o ≠ .stuck →
-      Ext c (pushTryFrame tryPanicMarker (-1) s) s1 →
-      ApiGood s (unwindAtMarker runF o s1) := by
-    intro c hcc _ _ hext
-    have := unwind_after_body HA o c hcc s (pushTryFrame tryPanicMarker (-1) s) s1 hI
+  have key : ∀ (o' : Outcome) (c : Bool), (o' = .thrown → c = true) →
+      Ext c (pushTryFrame tryPanicMarker (-1) s) s1 → (o' ≠ .fatal → s1.interrupted = s.interrupted) →
+      ApiGood s (unwindAtMarker runF o' s1) := by
+    intro o' c hcc hext hq1
+    have := unwind_after_body HA o' c hcc s (pushTryFrame tryPanicMarker (-1) s) s1 hI
       ((Same.refl _).toExt false) rfl hext _ rfl
-    obtain ⟨a1, _, a3, a4, a5, a6, a7, a8, a9, a10, a11, a12⟩ := this
-    have hne := unwind_no_exit runF o s1
-    refine ⟨⟨a1, hne⟩, mkSame ⟨a4, a5, a6, a7, a8, a9, a10, a11⟩, fun hnf => ?_⟩
-    have ho : o = .thrown := by
-      cases hu : (unwindAtMarker runF o s1).1 with
+    obtain ⟨a1, a2, a3, a4, a5, a6, a7, a8, a9, a10, a11, a12⟩ := this
+    have hne := unwind_no_exit runF o' s1
+    refine ⟨⟨a1, hne.1, hne.2⟩, mkSame ⟨a4, a5, a6, a7, a8, a9, a10, a11⟩, fun hnf => ?_⟩
+    have ho : o' = .thrown := by
+      cases hu : (unwindAtMarker runF o' s1).1 with
       | thrown => exact a3 hu
       | fatal => exact absurd hu hnf
-      | normal => rename_i a2; exact absurd hu ‹_›
+      | normal => exact absurd hu a2
       | stuck => exact absurd hu a1
-      | exit e => exact absurd hu (hne e)
-    exact (a12 hnf).trans ((hq (by simp [ho])).trans hpq)
+      | exit e => exact absurd hu (hne.1 e)
+      | yielded => exact absurd hu hne.2
+    exact (a12 hnf).trans (hq1 (by simp [ho]))
   cases o with
   | normal =>
     simp only [GoodCtl] at hc
@@ -283,7 +320,8 @@ theorem tryB_spec {runF : RunF} (HG : HypG runF) (HA : HypA runF) (b : Beh) (s :
     simp only [GoodCtl] at hc
     exact ⟨by simp, same_pop_of_push hc, fun _ => by simpa [popTryFrame] using (hq (by simp)).trans hpq⟩
   | stuck => simp [GoodCtl] at hc
-  | thrown => exact key true (fun _ => rfl) (by simp) (by simp) hc
-  | fatal => exact key false (by simp) (by simp) (by simp) hc
+  | thrown => exact key .thrown true (fun _ => rfl) hc (fun _ => (hq (by simp)).trans hpq)
+  | fatal => exact key .fatal false (by simp) hc (by simp)
+  | yielded => simp only [GoodCtl] at hc; exact key .fatal false (by simp) hc.1 (by simp)
 
 end GojaModel.C03
